@@ -161,7 +161,7 @@ def opTag (env : Env) (s : State) : Op → String × String
     ((if !auth then "params-auth" else if !p.valid then "params-invalid"
       else if p.enable != s.infl.params.enable then "params-toggle" else "params-same-enable"), "-")
   | .sample p x _ b =>
-    (s!"calc-r{decClass p.r}-v{decClass p.maxVariance}-{if p.bondingTarget ≤ b then "capped" else "below"}",
+    (s!"calc-r{decClass p.r}-{if p.maxVariance == 0 then "v0" else if p.bondingTarget ≤ b then "capped" else "below"}",
      if x == 0 then "x0" else if x < 64 then "x<64" else if x < 1024 then "x<1024" else "x>=1024")
 
 structure Acc where
